@@ -603,6 +603,80 @@ func c10Read(w *World, r *Report, t *types.Named) {
 		}
 	})
 	r.Check(eofOK, "C10-e", name, "io.EOF decided by comparing cursor and size", w.relFile(rd.Pos()), "", "no io.EOF return controlled by a comparison of the cursor with the file size")
+	// C10-e (order): the end-of-file decision comes before any failure that is decided from the cursor: a Read with the
+	// cursor at or past the end must answer io.EOF, not an error about a position that no longer maps to data
+	var eofIfs []*ssa.BasicBlock
+	isEOFLoad := func(v ssa.Value) bool {
+		ld, ok := v.(*ssa.UnOp)
+		if !ok || ld.Op != token.MUL {
+			return false
+		}
+		g, ok := ld.X.(*ssa.Global)
+		return ok && g.Name() == "EOF" && g.Pkg.Pkg.Path() == "io"
+	}
+	for _, b := range rd.Blocks {
+		iff, ok := lastInstr(b).(*ssa.If)
+		if !ok {
+			continue
+		}
+		pc := w.prov(iff.Cond, provOpts{stopAt: func(x ssa.Value) bool { return acc[x] }})
+		if !hasSizeRoot(pc) || !hasCursorRoot(pc) {
+			continue
+		}
+		for _, sb := range b.Succs {
+			if ret, ok := lastInstr(sb).(*ssa.Return); ok && len(sb.Preds) == 1 {
+				for _, rv := range ret.Results {
+					if isEOFLoad(rv) {
+						eofIfs = append(eofIfs, b)
+					}
+				}
+			}
+		}
+	}
+	if len(eofIfs) > 0 {
+		k := 0
+		for _, ret := range returnsOf(rd) {
+			if classifyReturn(ret) != RetError {
+				continue
+			}
+			isEOF := false
+			for _, rv := range ret.Results {
+				if isEOFLoad(rv) {
+					isEOF = true
+				}
+			}
+			if isEOF {
+				continue
+			}
+			// decided from the cursor?
+			cursorDecided := false
+			for _, b := range rd.Blocks {
+				iff, ok := lastInstr(b).(*ssa.If)
+				if !ok {
+					continue
+				}
+				for idx := range b.Succs {
+					if edgeDominates(b, idx, ret.Block()) {
+						if pc := w.prov(iff.Cond, provOpts{stopAt: func(x ssa.Value) bool { return acc[x] }}); hasCursorRoot(pc) {
+							cursorDecided = true
+						}
+					}
+				}
+			}
+			if !cursorDecided {
+				continue
+			}
+			k++
+			after := false
+			for _, e := range eofIfs {
+				if e == ret.Block() || e.Dominates(ret.Block()) {
+					after = true
+				}
+			}
+			r.Check(after, "C10-e", name, fmt.Sprintf("failure decided from the cursor comes after the end-of-file decision #%d", k), w.relFile(instrPos(ret)), "",
+				"an error return that is decided from the cursor position can be reached before the cursor has been compared with the file size: a Read with the cursor at or beyond the end (after the last byte was delivered, or after Seek(0, io.SeekEnd)) fails with that error instead of reporting io.EOF")
+		}
+	}
 	// cursor advances by the returned count
 	var inc []ssa.Value
 	for _, fn := range withClosures(rd) {
